@@ -518,10 +518,11 @@ def runScript (fs : FS) : Nat → String → Tables K → Script →
     let tdm := pty.1 = some "tdm"
     let st ← sc.items.foldlM (execItem tdm incs) st
     -- exitProgram
+    -- (repaired) only the p-array names, which are stored as strings, are filtered out
     let params := st.tables.params.filterMap fun e =>
       match e with
-      | .sym p => if isPType p then none else some p
-      | .pname s => if isPType s then none else some s
+      | .sym p => some p
+      | .pname _ => none
     .ok (⟨h.name, h.version, tgt, pty, st.ops, st.tables.vars, params, st.modes⟩,
          Tables.empty, incs)
 
